@@ -2128,3 +2128,13 @@ E('C09', 'early-init-abort-in-helper-order', BLK, """                    except 
                         self.circuit.abort(init_err)
                         raise
 """)
+
+# ----------------------------------------------------------------------------- defect F21 (C05)
+VM('C05', 'f21-reverted', [(SIM, "        self._init_done = asyncio.Event()   # wait_init() needs it as soon as the task is registered\n", ""),
+                           (SIM, "            self.sblock_queue = asyncio.Queue()\n", "            self.sblock_queue = asyncio.Queue()\n            self._init_done = asyncio.Event()\n")],
+   'R05.7', note="pre-fix tree: the signal is created after the tests that can end the start")
+E('C05', 'init-done-before-registration', SIM, """        self._simtask = asyncio.current_task()
+        self._init_done = asyncio.Event()   # wait_init() needs it as soon as the task is registered
+""", """        self._init_done = asyncio.Event()
+        self._simtask = asyncio.current_task()
+""")
